@@ -83,6 +83,21 @@ elif scen == 'mixed':
             exit_thread(i)
         elif i % 3 == 1:
             park_in_callback(i)
+elif scen == 'blocked_in_c_joined_at_exit':
+    # some threads exit normally first; the others block in C and are joined by a libc atexit
+    # handler, i.e. they terminate AFTER the interpreter has finalized (and cleared their thread states)
+    import time
+    lib.ft_arm_atexit()
+    for i in range(n):
+        if i % 2 == 1 and n > 1:
+            exit_thread(i)
+        else:
+            lib.ft_post(i, 3, 0, 0, 0)
+            go[i].release()
+            for _ in range(2000):
+                if lib.ft_is_waiting(i):
+                    break
+                time.sleep(0.005)
 else:   # collect_then_exit
     gc.collect()
     for i in range(n):
